@@ -105,6 +105,10 @@ class AxolotlReceivelayer(AxolotlBaseLayer):
         if enc.getVersion() == 2:
             self.parseAndHandleMessageProto(pkMessageProtocolEntity, plaintext)
 
+        if pkMessageProtocolEntity.getEnc(EncProtocolEntity.TYPE_SKMSG):
+            # the pairwise part of a group message only distributes the sender key, the content is in the skmsg part
+            return
+
         node = pkMessageProtocolEntity.toProtocolTreeNode()
         node.addChild((ProtoProtocolEntity(plaintext, enc.getMediaType())).toProtocolTreeNode())
 
@@ -119,6 +123,10 @@ class AxolotlReceivelayer(AxolotlBaseLayer):
 
         if enc.getVersion() == 2:
             self.parseAndHandleMessageProto(encMessageProtocolEntity, plaintext)
+
+        if encMessageProtocolEntity.getEnc(EncProtocolEntity.TYPE_SKMSG):
+            # the pairwise part of a group message only distributes the sender key, the content is in the skmsg part
+            return
 
         node = encMessageProtocolEntity.toProtocolTreeNode()
         node.addChild((ProtoProtocolEntity(plaintext, enc.getMediaType())).toProtocolTreeNode())
